@@ -32,6 +32,9 @@ type fieldOptionsTrieNode struct {
 	// registeredDescendantCount records how many times a descendant of this node
 	// is registered. This field is irrelevant to traversal or the trie structure.
 	registeredDescendantCount int
+	// removedDescendantCount records how many descendants of this node are being
+	// removed. This field is irrelevant to traversal or the trie structure.
+	removedDescendantCount int
 }
 
 // insert inserts a path into the trie. The caller should
@@ -70,6 +73,22 @@ func (p *fieldOptionsTrie) insert(path []int32, locationIndex int) {
 // registerDescendant finds if there is an ancestor of the provided
 // path and increments this ancestor's counter if it exists.
 func (p *fieldOptionsTrie) registerDescendant(descendant []int32) {
+	if ancestor := p.findAncestor(descendant); ancestor != nil {
+		ancestor.registeredDescendantCount += 1
+	}
+}
+
+// registerRemovedDescendant finds if there is an ancestor of the provided
+// path and increments this ancestor's counter of removed descendants if it exists.
+func (p *fieldOptionsTrie) registerRemovedDescendant(descendant []int32) {
+	if ancestor := p.findAncestor(descendant); ancestor != nil {
+		ancestor.removedDescendantCount += 1
+	}
+}
+
+// findAncestor returns the node of the FieldOptions path that is a proper
+// prefix of the provided path, or nil if there is none.
+func (p *fieldOptionsTrie) findAncestor(descendant []int32) *fieldOptionsTrieNode {
 	trie := p
 	for i, element := range descendant {
 		nodes := *trie
@@ -77,23 +96,24 @@ func (p *fieldOptionsTrie) registerDescendant(descendant []int32) {
 			return int(element - nodes[i].value)
 		})
 		if !found {
-			return
+			return nil
 		}
 		ancestor := nodes[pos]
 		descendantContinues := i != len(descendant)-1
 		if ancestor.isPathEnd && descendantContinues {
-			ancestor.registeredDescendantCount += 1
-			return
+			return ancestor
 		}
 		trie = &ancestor.children
 	}
+	return nil
 }
 
-// indicesWithoutDescendant returns the location indices of
+// indicesWithoutDescendant returns the location indices of the FieldOptions
+// paths that lost a descendant and have no descendant left.
 func (p *fieldOptionsTrie) indicesWithoutDescendant() []int {
 	locationIndices := []int{}
 	walkTrie(*p, func(node *fieldOptionsTrieNode) {
-		if node.isPathEnd && node.registeredDescendantCount == 0 {
+		if node.isPathEnd && node.registeredDescendantCount == 0 && node.removedDescendantCount > 0 {
 			locationIndices = append(locationIndices, node.locationIndex)
 		}
 	})
